@@ -179,7 +179,7 @@ def epoch_spec(prop, tier):
             return [ep(1, ("obs", "pin1", "moves", "gen1s"), -1), ep(2, ("obs", "moves"), 2),
                     ep(2, (), 0, 60, 30, ("--histories", "6"), "sequential histories depth 6")]
         return [ep(1, ("obs", "pin1", "moves", "list1", "gen1q"), -1, 900, 600), ep(2, ("obs", "pin1", "pin2", "moves", "gen2"), 4, 900, 900),
-                ep(2, (), 0, 600, 120, ("--histories", "8"), "sequential histories depth 8")]
+                ep(2, (), 0, 900, 120, ("--histories", "8"), "sequential histories depth 8")]
     if prop == "C17":
         if q:
             return [ep(1, ("list1", "gen1s"), -1), ep(2, ("list1", "list2"), 2)]
@@ -187,9 +187,9 @@ def epoch_spec(prop, tier):
                 ep(3, ("list1", "list2"), 3, 600, 600)]
     if prop == "C20":
         if q:
-            return [ep(2, (), 0, 80, 30, ("--histories", "7"), "sequential histories depth 7"), ep(2, ("list1", "recreate"), 2)]
-        return [ep(2, (), 0, 900, 120, ("--histories", "10"), "sequential histories depth 10"),
-                ep(1, (), 0, 600, 120, ("--histories", "12"), "sequential histories depth 12 (1 worker)"),
+            return [ep(2, (), 0, 80, 30, ("--histories", "6"), "sequential histories (incl. thread exits) depth 6"), ep(2, ("list1", "recreate"), 2)]
+        return [ep(2, (), 0, 1200, 120, ("--histories", "9"), "sequential histories (incl. thread exits) depth 9"),
+                ep(1, (), 0, 600, 120, ("--histories", "11"), "sequential histories depth 11 (1 worker)"),
                 ep(2, ("list1", "list2", "recreate"), 3, 600, 300)]
     return None
 
